@@ -1145,6 +1145,60 @@ EXT_SHAPES = ("{n}.rsplit('.', 1)[-1].lower()", "{n}.lower().rsplit('.', 1)[-1]"
               "{n}.split('.')[-1].lower()", "{n}.lower().split('.')[-1]", "{n}.lower().rpartition('.')[2]", "{n}.lower().rpartition('.')[-1]")
 
 
+EXT_CORPUS = ("word/media/image1.png", "word/media/IMG_0002.JPG", "media/Scan.Png", "ppt/media/a.b.JPEG", "xl/media.v2/pic.GIF", "Pictures/1000000000.bmp",
+              "x.BMP", "OEBPS/images/cover.page.Jpg", "image7.jpeg", "/word/media/image1.PNG", "../media/image2.Gif", "a/b.c/d.e.png", "./Pictures/p.jPeG")
+_STR_METHODS = {"rsplit", "split", "lower", "upper", "rpartition", "partition", "strip", "lstrip", "rstrip", "casefold", "removeprefix", "removesuffix",
+                "replace", "endswith", "startswith", "rfind", "find"}
+_PATH_FUNCS = {"posixpath.splitext", "posixpath.basename", "os.path.splitext", "os.path.basename"}
+
+
+def _ext_by_evaluation(e, n):
+    """BOUNDED stand-in for a key expression of a shape not in EXT_SHAPES: a pure string expression over the single name `n` (str methods,
+    posixpath / os.path splitext / basename, indexing, conditional expressions) is EXECUTED by CPython on a corpus of part names (lower / upper /
+    mixed-case extensions, several dots, dotted directories, relative and absolute references) and must give the lower-cased text after the last
+    dot each time.  -> True (agrees on the corpus) | False (differs) | None (not such an expression: nothing evaluated)."""
+    import os
+    import posixpath
+
+    def pure(x):
+        if isinstance(x, ast.Constant):
+            return isinstance(x.value, (str, int, type(None))) and not isinstance(x.value, bool) or isinstance(x.value, bool)
+        if isinstance(x, ast.Name):
+            return x.id == n and isinstance(x.ctx, ast.Load)
+        if isinstance(x, ast.Call):
+            if x.keywords and any(k.arg != "maxsplit" or not pure(k.value) for k in x.keywords):
+                return False
+            if dotted(x.func) in _PATH_FUNCS:
+                return all(pure(a) for a in x.args)
+            return isinstance(x.func, ast.Attribute) and x.func.attr in _STR_METHODS and pure(x.func.value) and all(pure(a) for a in x.args)
+        if isinstance(x, ast.Subscript):
+            return pure(x.value) and pure(x.slice)
+        if isinstance(x, ast.Slice):
+            return all(b is None or pure(b) for b in (x.lower, x.upper, x.step))
+        if isinstance(x, ast.UnaryOp) and isinstance(x.op, (ast.USub, ast.Not)):
+            return pure(x.operand)
+        if isinstance(x, ast.IfExp):
+            return pure(x.test) and pure(x.body) and pure(x.orelse)
+        if isinstance(x, ast.BoolOp):
+            return all(pure(v) for v in x.values)
+        if isinstance(x, ast.Compare):
+            return pure(x.left) and all(pure(c) for c in x.comparators) and all(isinstance(o, (ast.In, ast.NotIn, ast.Eq, ast.NotEq)) for o in x.ops)
+        if isinstance(x, ast.Tuple):
+            return all(pure(v) for v in x.elts)
+        return False
+    try:
+        if not pure(e) or not any(isinstance(x, ast.Name) and x.id == n for x in ast.walk(e)):
+            return None
+        code = compile(ast.fix_missing_locations(ast.Expression(body=ast.parse(ast.unparse(e), mode="eval").body)), "<key>", "eval")
+        for sample in EXT_CORPUS:
+            got = eval(code, {"__builtins__": {}, "posixpath": posixpath, "os": os}, {n: sample})      # noqa: S307 -- whitelisted pure expression
+            if got != sample.rsplit(".", 1)[-1].lower():
+                return False
+        return True
+    except Exception:  # noqa
+        return None
+
+
 def _ext_shape_of(e, n):
     """expression e is the lower-cased text after the last dot of name n (optionally guarded by `if '.' in n else <constant>`)"""
     if isinstance(e, ast.IfExp) and isinstance(e.orelse, ast.Constant) and ast.unparse(e.test).replace('"', "'") == f"'.' in {n}":
@@ -1156,7 +1210,7 @@ def _ext_shape_of(e, n):
 def _ct_helper_body(ck, helper):
     """The content-type helper of a module (`_get_content_type(name)` / the shared ODF `guess_content_type(path)`): every return is the table
     image of the lower-cased extension of its parameter, or `mimetypes.guess_type(<parameter>)[0] [or <constant>]` (assumed library model:
-    the mimetypes table maps the raster extensions case-insensitively).  -> None when recognised, else the reason (`unknown`)."""
+    the mimetypes table maps the raster extensions case-insensitively).  -> None when recognised, "~bounded" when a key expression of another shape agreed with the specification on EXT_CORPUS, else the reason (`unknown`)."""
     from contracts import c14_sites as SI
     from contracts.c14_flow import reaching
     try:
@@ -1179,6 +1233,7 @@ def _ct_helper_body(ck, helper):
                     break
             return v
         rets = [n for n in ast.walk(hk.fn) if isinstance(n, ast.Return)]
+        bounded = False
         if not rets:
             return f"{helper}: no return"
         for r in rets:
@@ -1192,6 +1247,9 @@ def _ct_helper_body(ck, helper):
                 key = v.slice
             if key is not None:
                 if not _ext_shape_of(deref(key, r), pn):
+                    if _ext_by_evaluation(deref(key, r), pn) is True:
+                        bounded = True
+                        continue
                     return f"{helper}: key {ast.unparse(deref(key, r))[:60]}"
                 continue
             g = v.values[0] if isinstance(v, ast.BoolOp) and isinstance(v.op, ast.Or) and len(v.values) == 2 and isinstance(v.values[1], ast.Constant) else v
@@ -1201,7 +1259,7 @@ def _ct_helper_body(ck, helper):
                     and isinstance(g.value.args[0], ast.Name) and g.value.args[0].id == pn:
                 continue
             return f"{helper}: returns {ast.unparse(v)[:60]}"
-        return None
+        return "~bounded" if bounded else None
     except Exception as e:  # noqa  -- a shape this reader does not handle: unknown, the native sweep decides
         return f"{helper}: shape not recognised ({type(e).__name__})"
 
@@ -1212,7 +1270,7 @@ def _ct_from_extension(ck, sites, of_names, label="looked-up-by-the-lower-cased-
     Anything else is `unknown`: the native sweep of content types decides."""
     from contracts import c14_sites as SI
     from contracts.c14_flow import reaching
-    bad, ok = [], 0
+    bad, ok, evaluated = [], 0, []
 
     def ext_of(e, at):
         s = ast.unparse(e).replace('"', "'")
@@ -1245,6 +1303,9 @@ def _ct_from_extension(ck, sites, of_names, label="looked-up-by-the-lower-cased-
             k, kat = deref(key, at)
             if ext_of(k, kat):
                 ok += 1
+            elif any(_names_the_part(ck, nm, kat) and _ext_by_evaluation(k, nm) is True for nm in sorted({x.id for x in ast.walk(k) if isinstance(x, ast.Name)})):
+                ok += 1
+                evaluated.append(f"line {LN(c)}: key {ast.unparse(k)[:60]}")
             else:
                 bad.append(f"line {LN(c)}: key {ast.unparse(k)[:60]}")
         elif isinstance(v, ast.Call) and dotted(v.func).split(".")[-1] in ("_get_content_type", "guess_content_type") and len(v.args) == 1 \
@@ -1252,6 +1313,9 @@ def _ct_from_extension(ck, sites, of_names, label="looked-up-by-the-lower-cased-
             why = _ct_helper_body(ck, dotted(v.func).split(".")[-1])      # the helper's own body is part of the claim
             if why is None:
                 ok += 1
+            elif why == "~bounded":
+                ok += 1
+                evaluated.append(f"line {LN(c)}: key expression of {dotted(v.func).split('.')[-1]}")
             else:
                 bad.append(f"line {LN(c)}: {why}")
         else:
@@ -1259,6 +1323,9 @@ def _ct_from_extension(ck, sites, of_names, label="looked-up-by-the-lower-cased-
     if bad or not ok:
         return ck.unknown("content-type", label, "; ".join(bad) or "no content_type= found")
     ck.add("content-type", label, True)
+    if evaluated:     # not proved: the key expression was executed on a corpus of part names (BOUNDED stand-in, DESIGN 2.8)
+        ck.obls[-1]["bounded"] = True
+        ck.obls[-1]["reason"] = f"key expression executed on {len(EXT_CORPUS)} part names, equals the lower-cased extension each time: " + "; ".join(evaluated)[:300]
 
 
 COMPLETENESS_FNS = {}
@@ -2133,7 +2200,8 @@ ASSUMPTIONS = ["JPEG: a stream that leaves the T.81 marker chain before a frame 
 BOUNDED = ["each recorded finding: behaviour OUTSIDE its exclusion is checked by a native sweep of 12 generated documents (replay/C14.py::exclusion_sweep), not proved",
            "refutations: every solver model is re-validated natively (grid of 8 base dirs x 15 targets for resolvers; generated PNG/GIF/BMP/JPEG files incl. fill "
            "bytes, 1-3 leading segments and 6000 random marker sequences for the sniffers; <= 3 elements x <= 2 images for the data_types views)",
-           "content-type obligations are syntactic (lookup of the lower-cased extension in the literal table); str.lower / mimetypes are not modelled"]
+           "content-type obligations are syntactic (lookup of the lower-cased extension in the literal table); str.lower / mimetypes are not modelled; "
+           "a key expression of another pure shape is executed by CPython on EXT_CORPUS (13 part names) and counted as bounded-ok, never as proved"]
 
 
 def known_findings(kf, violations, repo, tier):
